@@ -26,6 +26,7 @@ inductive FS
   | attr (sp loc : String) (om : Bool)   -- attribute; `om`: left out when empty
   | child (loc : String) (om : Bool)     -- `<loc>text</loc>`; `om`: left out when empty
   | kids (loc : String)                    -- repeated `<loc>text</loc>`
+  | text                                   -- the element's own character data
   deriving DecidableEq, Repr, Inhabited
 
 inductive FV
@@ -42,6 +43,7 @@ def fitsFS : FS → FV → Bool
   | .attr .., .one _ => true
   | .child .., .one _ => true
   | .kids _, .many _ => true
+  | .text, .one _ => true
   | _, _ => false
 
 def encAttrs : FS → FV → List Attr
@@ -51,6 +53,7 @@ def encAttrs : FS → FV → List Attr
 def encKids (sp : String) : FS → FV → List Node
   | .child loc om, .one s => if om && s = "" then [] else [leaf sp loc s]
   | .kids loc, .many l => l.map (leaf sp loc)
+  | .text, .one s => textKid s
   | _, _ => []
 
 def allAttrs : List FS → List FV → List Attr
@@ -75,6 +78,7 @@ def decFS (as : List Attr) (ks : List Node) : FS → FV
   | .attr _ loc _ => .one (attrOrEmpty as loc)
   | .child loc _ => .one (lastText (kidsNamed loc ks))
   | .kids loc => .many ((kidsNamed loc ks).map fun p => textOf p.2)
+  | .text => .one (textOf ks)
 
 /-- the reader of a flat record (`xml.Unmarshal` with struct tags, or the hand-written
 attribute loops): the element name is checked, every field is read independently -/
@@ -98,8 +102,14 @@ def kidLocs : List FS → List String
   | .kids loc :: fs => loc :: kidLocs fs
   | _ :: fs => kidLocs fs
 
-/-- field names are pairwise distinct (per kind) -/
-def Schema.ok (s : Schema) : Bool := (attrLocs s.fields).Nodup && (kidLocs s.fields).Nodup
+def textCount : List FS → Nat
+  | [] => 0
+  | .text :: fs => textCount fs + 1
+  | _ :: fs => textCount fs
+
+/-- field names are pairwise distinct (per kind) and at most one field is the character data -/
+def Schema.ok (s : Schema) : Bool :=
+  (attrLocs s.fields).Nodup && (kidLocs s.fields).Nodup && decide (textCount s.fields ≤ 1)
 
 /-! ### the schemas of the library's flat payload types -/
 
@@ -129,7 +139,20 @@ def schemas : List (String × Schema) := [
     [.attr "" "action" true, .attr "" "jid" true, .attr "" "name" true, .attr "" "node" false, .attr "" "sessionid" true]⟩),
   ("upload.File", ⟨⟨"urn:xmpp:http:upload:0", "request"⟩,
     [.attr "" "content-type" true, .attr "" "filename" false, .attr "" "size" false]⟩),
-  ("xtime.Time", ⟨⟨"urn:xmpp:time", "time"⟩, [.child "tzo" false, .child "utc" false]⟩)
+  ("xtime.Time", ⟨⟨"urn:xmpp:time", "time"⟩, [.child "tzo" false, .child "utc" false]⟩),
+  ("delay.Delay", ⟨⟨"urn:xmpp:delay", "delay"⟩, [.attr "" "from" true, .attr "" "stamp" false, .text]⟩),
+  ("stanza.Delay", ⟨⟨"urn:xmpp:delay", "delay"⟩, [.attr "" "from" false, .attr "" "stamp" false, .text]⟩),
+  ("commands.Note", ⟨⟨"", "note"⟩, [.attr "" "type" false, .text]⟩),
+  ("bin.Data", ⟨⟨"urn:xmpp:bob", "data"⟩, [.attr "" "cid" true, .attr "" "max-age" true, .attr "" "type" true, .text]⟩),
+  ("crypto.Hash", ⟨⟨"urn:xmpp:hashes:2", "hash-used"⟩, [.attr "" "algo" false]⟩),
+  ("crypto.HashOutput", ⟨⟨"urn:xmpp:hashes:2", "hash"⟩, [.attr "" "algo" false, .text]⟩),
+  ("styling.Unstyled", ⟨⟨"urn:xmpp:styling:0", "unstyled"⟩, []⟩),
+  ("receipts.Requested", ⟨⟨"urn:xmpp:receipts", "request"⟩, []⟩),
+  ("muc.Invitation(direct)", ⟨⟨"jabber:x:conference", "x"⟩,
+    [.attr "" "continue" true, .attr "" "jid" false, .attr "" "password" true, .attr "" "reason" true, .attr "" "thread" true]⟩),
+  ("muc.Item", ⟨⟨"", "item"⟩,
+    -- `jid,attr,omitempty` on a struct type: encoding/xml never omits it
+    [.attr "" "affiliation" true, .attr "" "jid" false, .attr "" "nick" true, .attr "" "role" true, .child "reason" false]⟩)
 ]
 
 def schemaOf (name : String) : Option Schema := (schemas.find? (·.1 = name)).map (·.2)
